@@ -6,9 +6,10 @@ def sh(cmd, **kw): return subprocess.run(cmd, shell=True, capture_output=True, t
 def main():
     names = sys.argv[1:] or sorted(os.listdir(os.path.join(V, 'seeded')))
     man = json.load(open(os.path.join(V, 'MANIFEST.json'))); claimed = [c['property_id'] for c in man['checks']]
-    W = '/tmp/seedrepo'
+    W = os.environ.get('SEEDS_W', '/tmp/seedrepo')      # (a second instance needs its own worktree and scratch directory)
     sh('git -C /repo worktree remove --force %s; rm -rf %s; git -C /repo worktree prune; git -C /repo worktree add --detach %s HEAD' % (W, W, W))
-    env = dict(os.environ, VERIF_REPO=W, VERIF_SCRATCH='/tmp/seedscratch')
+    SC = W.rstrip('/') + '.scratch' if 'SEEDS_W' in os.environ else '/tmp/seedscratch'
+    env = dict(os.environ, VERIF_REPO=W, VERIF_SCRATCH=SC)
     for nm in names:
         d = os.path.join(V, 'seeded', nm)
         if not os.path.exists(os.path.join(d, 'patch.diff')): continue
@@ -25,8 +26,8 @@ def main():
                 t = time.time(); r = sh('./check %s quick' % c, cwd=V, env=env)
                 res[c] = {'exit': r.returncode, 'violation_lines': r.stdout.count('VIOLATION property='), 'tail': r.stdout.strip().split('\n')[-1][:300], 'secs': round(time.time() - t, 1)}
         finally:
-            sh('git -C %s checkout -- . ; git -C %s clean -fdq' % (W, W)); sh('rm -rf /tmp/seedscratch')      # builds and output of the mutated tree go with it
+            sh('git -C %s checkout -- . ; git -C %s clean -fdq' % (W, W)); sh('rm -rf %s' % SC)      # builds and output of the mutated tree go with it
         json.dump({'seed': nm, 'property': prop, 'repo_head': sh('git -C /repo rev-parse --short HEAD').stdout.strip(), 'results': res}, open(os.path.join(d, os.environ.get('SEEDS_OUT', 'detect.json')), 'w'), indent=1)
         print(nm, prop, {k: (v['exit'], v['violation_lines']) for k, v in res.items()} or 'no check for this property yet')
 main()
-sh('git -C /repo worktree remove --force /tmp/seedrepo; git -C /repo worktree prune; rm -rf /tmp/seedscratch')
+sh('git -C /repo worktree remove --force %s; rm -rf %s' % (os.environ.get('SEEDS_W', '/tmp/seedrepo'), (os.environ['SEEDS_W'].rstrip('/') + '.scratch') if 'SEEDS_W' in os.environ else '/tmp/seedscratch'))
